@@ -445,6 +445,154 @@ V("s-avg-guard-by-count", "silent", ["C14", "C06", "C13"], INF, "               
 V("f-avg-over-answered", "fire", ["C14"], INF, "                \"average_query_time_ms\": total_inference_time / len(queries)\n", "                \"average_query_time_ms\": total_inference_time / successful_queries\n",
   note="round 4: every query expired -> ZeroDivisionError in the log record, the flagged rows never reach the caller")
 
+# ---------------------------------------------------------------------------------- round-3 forms and their broken twins
+W_TIE_OLD = '        for xi_i in xi_i_set & xi_i_prime_set:\n            if partition_index == 0:\n                return False\n            hard_constraints_new = hard_constraints.copy()\n            for i in xi_i:\n                [\n                    hard_constraints_new.append(c)\n                    for c in self.epistemic_state["f_cnf_dict"][i]\n                ]\n            for i in frozenset(part) - xi_i:\n                [\n                    hard_constraints_new.append(c)\n                    for c in self.epistemic_state["nf_cnf_dict"][i]\n                ]\n            result = self._rec_inference(\n                hard_constraints_new, partition_index - 1, deadline\n            )\n            if result == False:\n                return False\n        return True\n'
+V("s-w-ties-all-returned", "silent", ["C03", "C12"], SW, W_TIE_OLD, '        shared = xi_i_set & xi_i_prime_set\n        if partition_index == 0:\n            return not shared\n        return all(\n            self._rec_inference(self._fixed(hard_constraints, part, xi_i), partition_index - 1, deadline)\n            for xi_i in shared\n        )\n\n    def _fixed(self, hard_constraints, part, xi_i):\n        new = hard_constraints.copy()\n        for i in xi_i:\n            for c in self.epistemic_state["f_cnf_dict"][i]:\n                new.append(c)\n        for i in frozenset(part) - xi_i:\n            for c in self.epistemic_state["nf_cnf_dict"][i]:\n                new.append(c)\n        return new\n', note="the tie loop as all(...) over a helper, the layer-0 answer as `not shared`")
+V("f-w-ties-any-returned", "fire", ["C03"], SW, W_TIE_OLD, '        shared = xi_i_set & xi_i_prime_set\n        if partition_index == 0:\n            return not shared\n        return any(\n            self._rec_inference(self._fixed(hard_constraints, part, xi_i), partition_index - 1, deadline)\n            for xi_i in shared\n        )\n\n    def _fixed(self, hard_constraints, part, xi_i):\n        new = hard_constraints.copy()\n        for i in xi_i:\n            for c in self.epistemic_state["f_cnf_dict"][i]:\n                new.append(c)\n        for i in frozenset(part) - xi_i:\n            for c in self.epistemic_state["nf_cnf_dict"][i]:\n                new.append(c)\n        return new\n', note="any instead of all: one passing tie decides")
+V("f-w-ties-layer0-inverted", "fire", ["C03"], SW, W_TIE_OLD, '        shared = xi_i_set & xi_i_prime_set\n        if partition_index == 0:\n            return bool(shared)\n        return all(\n            self._rec_inference(self._fixed(hard_constraints, part, xi_i), partition_index - 1, deadline)\n            for xi_i in shared\n        )\n\n    def _fixed(self, hard_constraints, part, xi_i):\n        new = hard_constraints.copy()\n        for i in xi_i:\n            for c in self.epistemic_state["f_cnf_dict"][i]:\n                new.append(c)\n        for i in frozenset(part) - xi_i:\n            for c in self.epistemic_state["nf_cnf_dict"][i]:\n                new.append(c)\n        return new\n', note="layer 0: a tie answers True")
+V("f-w-ties-no-layer0-guard", "fire", ["C03"], SW, W_TIE_OLD, '        shared = xi_i_set & xi_i_prime_set\n        return all(\n            self._rec_inference(self._fixed(hard_constraints, part, xi_i), partition_index - 1, deadline)\n            for xi_i in shared\n        )\n\n    def _fixed(self, hard_constraints, part, xi_i):\n        new = hard_constraints.copy()\n        for i in xi_i:\n            for c in self.epistemic_state["f_cnf_dict"][i]:\n                new.append(c)\n        for i in frozenset(part) - xi_i:\n            for c in self.epistemic_state["nf_cnf_dict"][i]:\n                new.append(c)\n        return new\n', note="the recursion below a tie is not guarded against layer 0")
+
+# partition: tolerance answers collected first, then split with compress
+PART_OLD = """            R = []
+            C = []
+            for c in conditionals:
+                calls += 1
+                s.push()
+                s.add_assertion(c.make_A_then_B())
+                if s.solve():
+                    R.append(c)
+                else:
+                    C.append(c)
+                s.pop()
+"""
+def _part_new(r_sel, c_sel):
+    return f"""            tolerated = []
+            for c in conditionals:
+                calls += 1
+                s.push()
+                s.add_assertion(c.make_A_then_B())
+                tolerated.append(s.solve())
+                s.pop()
+            import itertools, operator
+            R = list(itertools.compress(conditionals, {r_sel}))
+            C = list(itertools.compress(conditionals, {c_sel}))
+"""
+V("s-part-compress", "silent", ["C06", "C01"], CS, PART_OLD, _part_new("tolerated", "map(operator.not_, tolerated)"), note="round-3 form: answers collected, layers split with compress")
+V("f-part-compress-swapped", "fire", ["C06"], CS, PART_OLD, _part_new("map(operator.not_, tolerated)", "tolerated"), note="the tolerated conditionals stay, the others form the layer")
+V("f-part-compress-all-stay", "fire", ["C06"], CS, PART_OLD, _part_new("tolerated", "conditionals and [True] * len(tolerated)"), note="nothing leaves the remaining set")
+
+# ranking operations: filter through compress
+PO_FILTER_OLD = """        return [
+            w
+            for w in self.ranks.keys()
+            if self.world_satisfies_conditionalization(w, conditionalization)
+        ]
+"""
+def _filter_new(sel):
+    return f"""        import itertools, operator
+        worlds = self.ranks.keys()
+        verdicts = map(self.world_satisfies_conditionalization, worlds, itertools.repeat(conditionalization))
+        return list(itertools.compress(worlds, {sel}))
+"""
+V("s-filter-compress", "silent", ["C18"], PO, PO_FILTER_OLD, _filter_new("verdicts"))
+V("f-filter-compress-negated", "fire", ["C18"], PO, PO_FILTER_OLD, _filter_new("map(operator.not_, verdicts)"), note="the worlds that do not satisfy the condition are kept")
+
+# the front enumerated through a generator
+FRONT_OLD = """    results: list[dict[str, int]] = []
+    while opt.check() == z3.sat:
+        m = opt.model()
+        results.append(_int_values(m))
+        if len(minimize_vars) == 1:
+            # z3 enumerates a front only for two or more objectives: with a single one every
+            # check() returns the same optimum again, and that optimum is the whole front
+            break
+        if max_solutions is not None and len(results) >= max_solutions:
+            break
+
+    return results
+"""
+def _front_new(stop):
+    return f"""    results: list[dict[str, int]] = []
+    for count, values in enumerate(_front_models(opt), start=1):
+        results.append(values)
+        if {stop}:
+            break
+    return results
+
+
+def _front_models(opt):
+    while opt.check() == z3.sat:
+        yield _int_values(opt.model())
+"""
+V("s-front-generator", "silent", ["C17", "C19"], "inference/c_revision.py", FRONT_OLD, _front_new("len(minimize_vars) == 1 or (max_solutions is not None and count >= max_solutions)"))
+V("f-front-generator-no-single-exit", "fire", ["C17"], "inference/c_revision.py", FRONT_OLD, _front_new("max_solutions is not None and count >= max_solutions"), note="single objective: the generator never ends")
+V("f-front-generator-cap-off-by-one", "fire", ["C17"], "inference/c_revision.py", FRONT_OLD, _front_new("len(minimize_vars) == 1 or (max_solutions is not None and count > max_solutions)"), note="one point more than the cap")
+
+# parser: the list rules walked as a chain of links
+VIS = "parser/myVisitor.py"
+VCOND_OLD = """        consequent = self.visit(ctx.consequent)
+        antecedent = self.visit(ctx.antecedent)
+        text = f"({ctx.consequent.getText()}|{ctx.antecedent.getText()})"
+        c = Conditional(consequent, antecedent, text, weak=False)
+        if ctx.condition() != None:
+            return [c] + self.visit(ctx.condition())
+        return [c]
+"""
+def _vcond_new(order, build):
+    return f"""        links = []
+        while ctx is not None:
+            links.append(ctx)
+            ctx = ctx.condition()
+        return [self._conditional(link) for link in {order}]
+
+    def _conditional(self, ctx):
+        consequent = self.visit(ctx.consequent)
+        antecedent = self.visit(ctx.antecedent)
+        text = f"({{ctx.consequent.getText()}}|{{ctx.antecedent.getText()}})"
+        return {build}
+"""
+V("s-visit-condition-links", "silent", ["C10"], VIS, VCOND_OLD, _vcond_new("links", "Conditional(consequent, antecedent, text, weak=False)"))
+V("f-visit-condition-links-reversed", "fire", ["C10"], VIS, VCOND_OLD, _vcond_new("reversed(links)", "Conditional(consequent, antecedent, text, weak=False)"), note="file order lost")
+V("f-visit-condition-links-swapped", "fire", ["C10"], VIS, VCOND_OLD, _vcond_new("links", "Conditional(antecedent, consequent, text, weak=False)"), note="consequent and antecedent swapped")
+V("f-visit-condition-links-skip-last", "fire", ["C10"], VIS, VCOND_OLD, _vcond_new("links[:-1] or links", "Conditional(consequent, antecedent, text, weak=False)"), note="the last conditional of a longer list is lost")
+V("f-visit-condition-links-weak", "fire", ["C10"], VIS, VCOND_OLD, _vcond_new("links", "Conditional(consequent, antecedent, text, weak=True)"))
+VSIG_OLD = "        if len(signature) != len(set(signature)):\n"
+V("s-visit-signature-counter", "silent", ["C10"], VIS, VSIG_OLD, "        if any(times > 1 for times in Counter(signature).values()):\n")
+V("f-visit-signature-counter-twice-ok", "fire", ["C10"], VIS, VSIG_OLD, "        if any(times > 2 for times in Counter(signature).values()):\n", note="an atom declared twice is accepted")
+V("f-visit-signature-adjacent-only", "fire", ["C10"], VIS, VSIG_OLD, "        if any(a == b for a, b in zip(signature, signature[1:])):\n", note="only adjacent duplicates are rejected")
+
+# the violated owners through a generator
+OPT = "inference/optimizer.py"
+VIOL_OLD = """            for index, conditional in nf_cnf_dict.items():
+                if index in ignore:
+                    continue
+                for clause in conditional:
+                    if not any(x in clause for x in model):
+                        counter += 1
+                        violated.add(index)
+                    if counter == cost:
+                        return violated
+"""
+def _viol_new(cond, stop):
+    return f"""            true_literals = set(model)
+            unsatisfied = (
+                index
+                for index, conditional in nf_cnf_dict.items()
+                if {cond}
+                for clause in conditional
+                if true_literals.isdisjoint(clause)
+            )
+            for counter, index in enumerate(unsatisfied, start=1):
+                violated.add(index)
+                if {stop}:
+                    break
+"""
+V("s-violated-generator", "silent", ["C15", "C03"], OPT, VIOL_OLD, _viol_new("index not in ignore", "counter == cost"))
+V("f-violated-generator-stops-early", "fire", ["C15"], OPT, VIOL_OLD, _viol_new("index not in ignore", "counter + 1 >= cost"), note="stops one unsatisfied clause early")
+V("f-violated-generator-ignore-dropped", "fire", ["C15"], OPT, VIOL_OLD, _viol_new("True", "counter == cost"), note="ignored owners reported")
+V("f-violated-generator-first-clause-only", "fire", ["C15"], OPT, VIOL_OLD,
+  _viol_new("index not in ignore", "counter == cost").replace("for clause in conditional\n", "for clause in conditional[:1]\n"), note="only the first clause of a conditional is looked at")
+
 
 def main():
     hv = os.path.join(HERE, "harvested.json")
